@@ -119,8 +119,13 @@ func (f *Filter) ModifyResponse(res *http.Response) error {
 		defaultPort = 443
 	}
 
-	if !strings.Contains(res.Request.URL.Host, ":") && (f.port == defaultPort) {
-		return f.resmod.ModifyResponse(res)
+	if !strings.Contains(res.Request.URL.Host, ":") {
+		// no port explictly declared - default port
+		if f.port == defaultPort {
+			return f.resmod.ModifyResponse(res)
+		}
+
+		return nil
 	}
 
 	_, p, err := net.SplitHostPort(res.Request.URL.Host)
